@@ -152,22 +152,21 @@ def render (a : Attrs) : DVal → Option Str
 def attrsList (a : Attrs) : List (Str × Option Str) :=
   (handle a).dict.map (fun p => (p.1, render a p.2))
 
-/-- `SpecialAttributesDict.__setitem__` (string / `None` values); `none` = the call raises
-    (`StyleAttribute(None)` → `None.strip()`). -/
+/-- `SpecialAttributesDict.__setitem__` (string / `None` values).  A missing value is the empty style
+    (fix 5f68e85) resp. no class names; the `style` branch returns after the setter has kept the key present
+    exactly while the style is non-empty (fix 77f2c48).  `none` = the call raises (never, kept for the callers). -/
 def setitem (a : Attrs) (key0 : Str) (v : Option Str) : Option Attrs :=
   let key := lower key0
   if key = sStyle then
-    match v with
-    | .none => .none
-    | .some s =>
-      let sty1 := styleToDict s                  -- StyleAttribute(value, tag): its __init__ ensures
-      let d1 := ensureStyle sty1 a.dict
-      let sty2 := styleToDict (styleStr sty1)    -- tag.style = …  copies it once more through its string
-      let d2 := ensureStyle sty2 d1              --   (the copy's __init__)
-      let d3 := ensureStyle sty2 d2              --   self.style._ensureHtmlAttribute()
-      some { a with sty := sty2, dict := dset sStyle .style d3 }   -- dict.__setitem__(self, 'style', value)
+    let s : Str := match v with | .none => [] | .some s => s
+    let sty1 := styleToDict s                  -- StyleAttribute(value, tag): its __init__ ensures
+    let d1 := ensureStyle sty1 a.dict
+    let sty2 := styleToDict (styleStr sty1)    -- tag.style = …  copies it once more through its string
+    let d2 := ensureStyle sty2 d1              --   (the copy's __init__)
+    let d3 := ensureStyle sty2 d2              --   self.style._ensureHtmlAttribute()
+    some { a with sty := sty2, dict := d3 }
   else if key = sClass then
-    some { a with cls := classTokens (match v with | .none => str "None" | .some s => s) }
+    some { a with cls := classTokens (match v with | .none => [] | .some s => s) }
   else if boolStrAttrs.contains key then
     some { a with dict := dset key (.str (convBoolStr v)) a.dict }
   else some { a with dict := dset key (DVal.ofOpt v) a.dict }
